@@ -4,8 +4,9 @@ cd /verif
 for d in seeded/C*/; do
   id=$(basename $d); prop=${id:0:3}
   git -C /repo apply /verif/seeded/$id/patch.diff 2>/dev/null || { echo "$id: patch does not apply"; continue; }
-  out=$(./check $prop 2>&1)
+  out=$(./check $prop 2>&1); rc=$?
   git -C /repo checkout -- .
   n=$(echo "$out" | grep -c "^VIOLATION property=$prop")
+  if [ $n -eq 0 ] && [ $rc -ge 2 ]; then echo "$id: HARNESS ERROR (exit $rc: does the patch still compile on the current tree?)"; continue; fi
   echo "$id: $( [ $n -gt 0 ] && echo caught || echo MISSED ) ($n violation classes)"
 done
